@@ -263,11 +263,13 @@ def ev_elt(e, node, st, old, env):
     e.nofork += 1
     saved = e.spec_mode
     e.spec_mode = True
+    e.in_code_comp = getattr(e, "in_code_comp", 0) + 1      # code of the repository evaluated in spec mode
     try:
         return e.coerce(e.ev(node, st2, old), ARG, "all_args element")
     finally:
         e.nofork -= 1
         e.spec_mode = saved
+        e.in_code_comp -= 1
 
 
 def rec_comp(e, n, st, old):
@@ -312,11 +314,13 @@ def rec_comp(e, n, st, old):
                 e.nofork += 1
                 saved = e.spec_mode
                 e.spec_mode = True
+                e.in_code_comp = getattr(e, "in_code_comp", 0) + 1
                 try:
                     cs = [e.truth(e.ev(c_, st3, old)).s for c_ in g.ifs]
                 finally:
                     e.nofork -= 1
                     e.spec_mode = saved
+                    e.in_code_comp -= 1
                 return conj([inmap] + cs)
             q, j = "|q_k|", "|q_d|"
             el_k = ev_elt(e, n.elt, st, old, {tg.id: T(STR, q)})
